@@ -261,7 +261,7 @@ func c12Random(c *Ctx) {
 	for i := 0; i < n; i++ {
 		c.Case(int64(i), func(k *K) {
 			r := k.Rand()
-			l := r.IntN(60)
+			l := r.IntN(100)
 			if r.IntN(10) == 0 {
 				l = r.IntN(10001)
 			}
@@ -276,8 +276,24 @@ func c12Random(c *Ctx) {
 				s = append(append([]byte{}, h...), refRevComp(h)...)
 			}
 			k.Input("seq", s)
+			// a result held across later calls must stay what it was
+			heldRC := sequtil.ReverseComplement(nil, s)
+			heldStr := sequtil.ReverseComplementString(string(s))
 			checkRevComp(k, s, true)
+			other := randSeq(r, []byte(dna10), len(s))
+			sequtil.ReverseComplement(nil, other)
+			sequtil.ReverseComplementString(string(other))
+			if w := refRevComp(s); !bytes.Equal(heldRC, w) || heldStr != string(w) {
+				k.Failf("result-not-stable", "a ReverseComplement result changed after later calls: %q / %q, want %q", heldRC, heldStr, w)
+			}
+			k.Count("held_results_verified", 1)
 			ks := []int{1, 2, 3, 1 + r.IntN(32), len(s), len(s) + 1, len(s) + 2, max(1, len(s)-1)}
+			// k around machine-word packing boundaries (2 bits per base: 4, 8, 16, 32 bases; 64)
+			for _, wk := range []int{4, 5, 8, 9, 15, 16, 17, 31, 32, 33, 63, 64, 65} {
+				if wk <= len(s)+1 && r.IntN(3) == 0 {
+					ks = append(ks, wk)
+				}
+			}
 			for _, kk := range ks {
 				if kk < 1 {
 					continue
